@@ -451,6 +451,7 @@ def check_C09(F, tier, t0):
     guarded(R, 'X5', engine_x.rule_X5, F, R)      # every name its own id: a name that shares an id with another drops out of the variable list
     guarded(R, 'S eval_recursive (FixedPoint / Subtree / Quantifier arms)', fixed_point_arms, R, E)      # a fixed-point name leaves the answer only through the substitution
     guarded(R, 'X3 order', engine_x.rule_X3, F, R)
+    guarded(R, 'X2 listing', engine_x.rule_X2, F, R, ('table',))      # the names a -v line shows are the headers of the free-variable columns, entry by entry
     front_end(R, F)
     R.floor('functions', 5); R.floor('worlds', 16); R.floor('X4:extract_vars', 1); R.floor('X4:free_vars-fill', 1)
     return finish(R, 'other', tier, t0,
@@ -618,6 +619,7 @@ def check_C13(F, tier, t0):
     guarded(R, 'E6', engine_e.rule_E6, F, R)
     guarded(R, 'E8', engine_e.rule_E8, F, R)
     guarded(R, 'E9', engine_e.rule_E9, F, R)
+    guarded(R, 'E10', engine_e.rule_E10, F, R)      # a set never creates a second environment
     guarded(R, 'X5', engine_x.rule_X5, F, R)      # in a shared environment a second formula's new variable must not take an id that is in use
     guarded(R, 'X7', engine_x.rule_X7, F, R)      # the exported diagram shows a shared node once (de-duplicated node and edge lists)
     guarded(R, 'XR', engine_x.rule_references, F, R)      # evaluating a formula leaves its definitions alone (a second evaluation sees what the first saw)
@@ -742,6 +744,7 @@ def check_C19(F, tier, t0):
     E.merge_ifs = True
     spec_set.mark_inline(E)
     guarded(R, 'S set operations', run_S, R, E, spec_set.SET_FNS, spec_set.S_)
+    guarded(R, 'E10', engine_e.rule_E10, F, R)      # the operations work in the set's one environment
     def aliased():
         E.alias_params = (0, 1)
         try:
